@@ -63,6 +63,7 @@ def _cell(rng, d, kind, dyadic):
         for i in range(d):
             for j in range(i):
                 H[i][j] = dec(rng, -1.5, 1.5, 2)
+        common.sparse_tilt(rng, H)
     return H
 
 
@@ -199,6 +200,12 @@ def real_write(c, tmp):
         os.remove(fn)
     s = snapshots_of(c)
     ppp = np.array([int(x) for x in c["ppp"]])
+    # process-global numpy print options (a user's own, or left behind by another routine) must not change what is written:
+    # every other case runs under settings that abbreviate arrays of more than 4 elements
+    if c["n"] % 2:
+        np.set_printoptions(threshold=4, edgeitems=1, linewidth=30, precision=3)
+    else:
+        np.set_printoptions(edgeitems=3, infstr="inf", linewidth=75, nanstr="nan", precision=8, suppress=False, threshold=1000, formatter=None)
     try:
         if c["mode"] == "nn":
             cn.Nnearests(s, c["N"], ppp, fn)
